@@ -14,7 +14,7 @@ claimed = {
    note=TRUST + " PARTIAL: only these two drop points are decided. Not decided: that each pass-1 handler reports every operand shape it rejects (they log with capitalised 'Error:' prefixes, which colog prints at info level), undefined symbols, that GenerateX86 reports every processOcode failure (it does, but events inside loops are not tracked), and the link to the exit status. TraverseAST's other clauses (mode, frame) are trusted and its panic sites are not analysed.",
    design="DESIGN.md section 4, C07"),
  "C01": dict(
-   text="Deductive proofs over the real leaf encoders that every instruction handler uses: GetRegisterNumber gives each general, segment and control register name its SDM number and rejects everything else; ModRMByOperand/ModRMByValue build, for register operands, exactly mod=11 | reg<<3 | rm with the two registers in their roles (or the /digit), and for memory operands a ModR/M byte whose reg field is the register operand; calculateModRM's bytes decode to the written effective address (C02 clause, shared); getImmediateValue emits the low size*8 bits of the value little-endian; getImmediateSizeType has the signed thresholds; registerToPushPopCode gives the +r numbers of 16/32-bit registers only; handleINT emits CD ib; handleRET emits C3. The hand-written encoding rows (code, not data) are checked against the instruction set: in MOV forms with a segment or control register the special register is in the reg field and the general register in r/m, with opcodes 8C/8E/0F20/0F22 (a wrong row was found and repaired, fix commit); every IN/OUT row has the SDM opcode for its accumulator/port form and a one-byte port immediate; PUSH/POP r32 are 50+rd / 58+rd.",
+   text="Deductive proofs over the real leaf encoders that every instruction handler uses: GetRegisterNumber gives each general, segment and control register name its SDM number and rejects everything else; ModRMByOperand/ModRMByValue build, for register operands, exactly mod=11 | reg<<3 | rm with the two registers in their roles (or the /digit), and for memory operands a ModR/M byte whose reg field is the register operand; calculateModRM's bytes decode to the written effective address (C02 clause, shared); getImmediateValue emits the low size*8 bits of the value little-endian; getImmediateSizeType has the signed thresholds; registerToPushPopCode gives the +r numbers of 16/32-bit registers only; handleINT emits CD ib; handleRET emits C3. The hand-written encoding rows (code, not data) are checked against the instruction set: in MOV forms with a segment or control register the special register is in the reg field and the general register in r/m, with opcodes 8C/8E/0F20/0F22 (a wrong row was found and repaired, fix commit); every IN/OUT row has the SDM opcode for its accumulator/port form and a one-byte port immediate; PUSH/POP r32 are 50+rd / 58+rd. The prefix decisions: Require67h is true exactly when a memory operand is addressed with registers of the other address size (proved without exception); Require66h is true exactly when a register operand or an explicitly sized memory operand has the non-default 16/32-bit size - outside two recorded regions where the tree also lets the magnitude of an immediate and the address registers of an unsized memory operand decide.",
    note=TRUST + " PARTIAL, and the larger part is open: the per-mnemonic handlers (MOV, ALU, logical, IMUL, IN/OUT, PUSH/POP, no-operand table) that choose the asmdb row, prefixes and immediate width are not under contract, nor is the asmdb table itself (A3); the operand text parser is assumed (A1, A2), 64-bit register names are excluded (A16, recorded finding). Findings recorded: 64-bit names numbered like 32-bit ones; the five C02 regions.",
    design="DESIGN.md section 4, C01"),
  "C03": dict(
